@@ -301,15 +301,21 @@ def run_gen_coords(spec, ctx, timeout=15, kwargs_extra=None, before_build=None, 
     GenerateTemplates.run_system = wrapped_templates
     Backmap.run_system = wrapped_backmap
     old_handler = signal.signal(signal.SIGALRM, _alarm)
-    signal.alarm(timeout)
+    signal.setitimer(signal.ITIMER_REAL, timeout, 1.0)
+    # the timer repeats every second after its first expiry: an exception raised by the handler while the
+    # interpreter runs a destructor or a gc callback is swallowed ("Exception ignored in ..."), and a one-shot
+    # alarm would then leave an endless placement loop running for ever
     try:
-        gcm.gen_coords(**kwargs)
+        try:
+            gcm.gen_coords(**kwargs)
+        finally:
+            signal.setitimer(signal.ITIMER_REAL, 0)
     except _Timeout:
         raise Inconclusive("gen_coords did not finish within the time budget")
     except Exception as err:
         res.exc = err
     finally:
-        signal.alarm(0)
+        signal.setitimer(signal.ITIMER_REAL, 0)
         signal.signal(signal.SIGALRM, old_handler)
         BuildSystem.run_system = orig_run_system
         NonBondEngine.add_positions = orig_add
